@@ -45,12 +45,30 @@ def check_result(ctx, clause, res, exp_set, exp_strand, optimized=True, parent_l
         ctx.eq(clause + ":position_multiset", gl, sorted(multiset))
     else:
         ctx.eq(clause + ":position_set", sorted(got), sorted(exp_set))
+    # merging the overlaps of a RESULT gives its position set in blocks that no longer overlap
+    try:
+        m = res.merge_overlapping()
+        mb = rm.loc_blocks(m)
+        ctx.eq(clause + ":merged_result_position_set", sorted(rm.posset(mb)), sorted(got))
+        ctx.true(clause + ":merged_result_no_overlap", all(mb[i][1] <= mb[i + 1][0] for i in range(len(mb) - 1)), mb)
+    except Exception as e:
+        ctx.fail(clause + ":merged_result_raises", repr(e)[:100])
 
 
 def algebra(ctx, A, B, a, b, sa, sb, pa, pb, normalized, self_overlap, parent_len=None, same_parent=True):
     """A,B library locations; a,b block lists; sa,sb strand symbols; pa,pb position sets"""
     spa, spb = span(a), span(b)
     lena, lenb = sum(e - s for s, e in a), sum(e - s for s, e in b)
+    before = [(rm.loc_blocks(X), [(x.start, x.end) for x in X.blocks], rm.loc_strand(X), len(X)) for X in (A, B)]
+    try:
+        _algebra(ctx, A, B, a, b, sa, sb, pa, pb, normalized, self_overlap, parent_len, same_parent, spa, spb, lena, lenb)
+    finally:
+        # the operands are values: no operation above rewrote, reordered or extended either of them
+        after = [(rm.loc_blocks(X), [(x.start, x.end) for x in X.blocks], rm.loc_strand(X), len(X)) for X in (A, B)]
+        ctx.eq("operands_unchanged_by_the_algebra", after, before)
+
+
+def _algebra(ctx, A, B, a, b, sa, sb, pa, pb, normalized, self_overlap, parent_len, same_parent, spa, spb, lena, lenb):
     for ms, fs in FLAGS2:
         strand_ok = (not ms) or sa == sb
         if fs:
